@@ -1,13 +1,620 @@
-import PyPhysim.Model.C06
-import PyPhysim.Model.C06Heap
+import PyPhysim.Proofs.C06
+import PyPhysim.Proofs.C06Stats
+import PyPhysim.Proofs.C06Heap
+import PyPhysim.Proofs.C06Pointwise
+import PyPhysim.Proofs.C06Copy
+import PyPhysim.Proofs.C06Append
+import PyPhysim.Proofs.C06CombineView
 
+/-!
+# C06 — combining simulation results is independent of how repetitions were grouped
+
+Property theorems only.  The definitions are the hand models of
+`pyphysim/simulations/results.py` and `parameters.py`
+(`PyPhysim.Model.C06`: `Result.update / merge / get_result / get_result_mean /
+get_result_var / __eq__`; `PyPhysim.Model.C06Heap`: `SimulationResults` on an
+explicit heap of shared objects, `merge_all_results`, `append_all_results`,
+`combine_simulation_parameters`, `get_pack_indexes`, `combine_simulation_results`),
+of the source **after** the `fix:` commits listed in `findings/C06.json`.  They are
+tied to the code by the exact differential scripts of `harness/props/c06.py`.
+
+`fresh nm ty acc k` is the object `Result(nm, ty, acc, choice_num=k)`;
+`foldUpd f xs` the object after the script `for o in xs: r.update(*o)`;
+`foldUpdM` / `evalTree` / `mergeM` are the same computations with Python's
+exception propagation (`.ok` = nothing was raised).
+-/
 namespace PyPhysim.C06
 open PyPhysim.C06M PyPhysim.Proto
 
-/-- placeholder while the harness is brought up -/
-theorem stub_update_counts (r : Res) (o : Obs) : (update r o).1.n = r.n + 1 := by
-  unfold update
-  cases r.ty <;> simp <;> (try split) <;> (try split) <;> simp
-  all_goals (try split) <;> simp
+/-! ## Result level: one sequence, any split, any merge order -/
+
+/-- **Clause "accumulating into one object = splitting in two and merging"** (SUM, RATIO,
+    CHOICE; accumulation on or off): for every two chunks of valid observations, neither the two
+    partial scripts nor the merge raises, and the merged object has *every attribute* (value,
+    total, result sums, update count, value/total lists) equal to the object that received the
+    concatenated sequence. -/
+theorem fold_update_append (nm : String) (ty : Ty) (acc : Bool) (k : Nat) (hm : ty ≠ .misc)
+    (xs ys : List Obs) (hx : ∀ o ∈ xs, validObs (fresh nm ty acc k) o)
+    (hy : ∀ o ∈ ys, validObs (fresh nm ty acc k) o) :
+    foldUpdM (fresh nm ty acc k) xs = .ok (foldUpd (fresh nm ty acc k) xs)
+      ∧ foldUpdM (fresh nm ty acc k) ys = .ok (foldUpd (fresh nm ty acc k) ys)
+      ∧ mergeM (foldUpd (fresh nm ty acc k) xs) (foldUpd (fresh nm ty acc k) ys)
+          = .ok (foldUpd (fresh nm ty acc k) (xs ++ ys))
+      ∧ foldUpdM (fresh nm ty acc k) (xs ++ ys) = .ok (foldUpd (fresh nm ty acc k) (xs ++ ys)) := by
+  refine ⟨foldUpdM_ok hx, foldUpdM_ok hy, ?_, foldUpdM_ok ?_⟩
+  · rw [mergeM_ok ((compat_foldUpd _ (Compat.refl _)).symm.trans (compat_foldUpd _ (Compat.refl _))),
+      foldUpd_append_fresh nm ty acc k hm]
+  · intro o ho
+    rcases List.mem_append.mp ho with h | h
+    · exact hx o h
+    · exact hy o h
+
+/-- **Clause "merging in any grouping"**: `Result.merge` is associative on results created with
+    the same constructor arguments, all four types, and raises in neither order. -/
+theorem merge_assoc (a b c : Res) (hab : Compat a b) (hbc : Compat b c) :
+    ∃ x, (mergeM a b >>= fun ab => mergeM ab c) = .ok x
+       ∧ (mergeM b c >>= fun bc => mergeM a bc) = .ok x := by
+  refine ⟨mergeCore (mergeCore a b) c, ?_, ?_⟩
+  · rw [mergeM_ok hab]
+    show mergeM (mergeCore a b) c = _
+    rw [mergeM_ok ((compat_mergeCore hab).symm.trans (hab.trans hbc))]
+  · rw [mergeM_ok hbc]
+    show mergeM a (mergeCore b c) = _
+    rw [mergeM_ok (hab.trans (compat_mergeCore hbc)), mergeCore_assoc hab hbc]
+
+/-- **Main clause** — for *every* finite sequence of valid `update` calls, *every* partition
+    into contiguous chunks (empty chunks included) and *every* association order of the merges
+    (= every binary tree whose leaves concatenate to the sequence), for SUM, RATIO and CHOICE
+    results with accumulation on or off: accumulating each chunk into its own new object and
+    merging along the tree raises nothing and yields exactly the object obtained by
+    accumulating the whole sequence into one object. -/
+theorem any_partition_any_association (nm : String) (ty : Ty) (acc : Bool) (k : Nat)
+    (hm : ty ≠ .misc) (t : MTree (List Obs))
+    (hv : ∀ o ∈ t.flatten, validObs (fresh nm ty acc k) o) :
+    evalTree (fresh nm ty acc k) t = .ok (foldUpd (fresh nm ty acc k) t.flatten)
+      ∧ evalTree (fresh nm ty acc k) t = foldUpdM (fresh nm ty acc k) t.flatten := by
+  have h := evalTree_eq_foldUpd nm ty acc k hm t hv
+  exact ⟨h, by rw [h, foldUpdM_ok hv]⟩
+
+/-- … hence two groupings of the same sequence give the same object, so the same value, total,
+    update count, mean, variance and `==` (all are functions of the object). -/
+theorem grouping_independent (nm : String) (ty : Ty) (acc : Bool) (k : Nat) (hm : ty ≠ .misc)
+    (t₁ t₂ : MTree (List Obs)) (hflat : t₁.flatten = t₂.flatten)
+    (hv : ∀ o ∈ t₁.flatten, validObs (fresh nm ty acc k) o) :
+    ∃ r, evalTree (fresh nm ty acc k) t₁ = .ok r ∧ evalTree (fresh nm ty acc k) t₂ = .ok r
+      ∧ getResult r = getResult (foldUpd (fresh nm ty acc k) t₁.flatten)
+      ∧ getMean r = getMean (foldUpd (fresh nm ty acc k) t₁.flatten)
+      ∧ getVar r = getVar (foldUpd (fresh nm ty acc k) t₁.flatten)
+      ∧ eqPy r (foldUpd (fresh nm ty acc k) t₁.flatten) = .ok true := by
+  refine ⟨_, evalTree_eq_foldUpd nm ty acc k hm t₁ hv, ?_, rfl, rfl, rfl, ?_⟩
+  · rw [hflat]; exact evalTree_eq_foldUpd nm ty acc k hm t₂ (hflat ▸ hv)
+  · have hc := compat_foldUpd t₁.flatten (Compat.refl (fresh nm ty acc k))
+    have hty : (foldUpd (fresh nm ty acc k) t₁.flatten).ty = ty := by rw [← hc.ty]; rfl
+    unfold eqPy
+    cases ty <;> simp [hty]
+
+/-- Merging *already computed* compatible results (any history, all four types incl. MISC) along
+    two trees with the same leaves gives the same object: only the left-to-right order of the
+    operands matters, never the grouping. -/
+theorem merge_association_irrelevant (c : Res) (t₁ t₂ : MTree Res) (hl : t₁.leaves = t₂.leaves)
+    (hc : ∀ x ∈ t₁.leaves, Compat c x) :
+    ∃ r, evalRes t₁ = .ok r ∧ evalRes t₂ = .ok r := by
+  refine ⟨mergeSeq t₁.first t₁.rest, evalRes_eq_mergeSeq c t₁ hc, ?_⟩
+  rw [evalRes_eq_mergeSeq c t₂ (hl ▸ hc)]
+  have h1 := MTree.leaves_eq t₁
+  have h2 := MTree.leaves_eq t₂
+  rw [hl, h2] at h1
+  injection h1 with e1 e2
+  rw [e1, e2]
+
+/-! ## what the merged attributes are (first principles) -/
+
+/-- SUM results: value, result sum = Σ v; squared sum = Σ v²; count = number of calls; total is
+    never touched; the value list is the observation sequence; mean = Σ v / n. -/
+theorem stats_sum (nm : String) (acc : Bool) (k : Nat) (xs : List Obs) :
+    let r := foldUpd (fresh nm .sum acc k) xs
+    r.value = (xs.map (·.v)).sum ∧ r.total = 0 ∧ r.n = xs.length
+      ∧ r.rsum = (xs.map (·.v)).sum ∧ r.rsq = (xs.map (fun o => o.v * o.v)).sum
+      ∧ r.vlist = (if acc then xs.map (·.v) else [])
+      ∧ (xs ≠ [] → getResult r = .ok (.num (xs.map (·.v)).sum)
+            ∧ getMean r = .ok ((xs.map (·.v)).sum / (xs.length : Rat))) := by
+  intro r
+  have h := foldUpd_sum (fresh nm .sum acc k) rfl xs
+  have hr : r = _ := h
+  refine ⟨by rw [hr]; simp [fresh], by rw [hr]; simp [fresh], by rw [hr]; simp [fresh],
+    by rw [hr]; simp [fresh], by rw [hr]; simp [fresh], by rw [hr]; cases acc <;> simp [fresh], ?_⟩
+  intro hne
+  have hn : xs.length ≠ 0 := by simpa using hne
+  rw [hr]
+  simp [getResult, getMean, fresh, hn]
+
+/-- … and `get_result_var` of a SUM result is the population variance of the observations,
+    `(1/n) Σ (vᵢ − mean)²`. -/
+theorem variance_is_population_variance (nm : String) (acc : Bool) (k : Nat) (xs : List Obs)
+    (hne : xs ≠ []) :
+    getVar (foldUpd (fresh nm .sum acc k) xs)
+      = .ok (((xs.map (·.v)).map (fun x =>
+            (x - (xs.map (·.v)).sum / (xs.length : Rat)) * (x - (xs.map (·.v)).sum / (xs.length : Rat)))).sum
+          / (xs.length : Rat)) := by
+  have hn : xs.length ≠ 0 := by simpa using hne
+  have hv := var_identity (xs.map (·.v)) (by simpa using hne)
+  have e : (xs.map (·.v)).map (fun x => x * x) = xs.map (fun o => o.v * o.v) := by
+    simp [List.map_map, Function.comp_def]
+  simp only [List.length_map, e] at hv
+  rw [foldUpd_sum _ rfl]
+  simp only [getVar, fresh, Nat.zero_add, hn, if_false, Rat.zero_add]
+  exact congrArg Except.ok hv
+
+/-- RATIO results: value = Σ v, total = Σ t, result sum = Σ v/t, squared sum = Σ (v/t)²,
+    count = number of calls; `get_result` = Σ v / Σ t. -/
+theorem stats_ratio (nm : String) (acc : Bool) (k : Nat) (xs : List Obs)
+    (hv : ∀ o ∈ xs, validObs (fresh nm .ratio acc k) o) :
+    let r := foldUpd (fresh nm .ratio acc k) xs
+    r.value = (xs.map (·.v)).sum ∧ r.total = (xs.map totalOf).sum ∧ r.n = xs.length
+      ∧ r.rsum = (xs.map ratioOf).sum ∧ r.rsq = (xs.map (fun o => ratioOf o * ratioOf o)).sum
+      ∧ r.vlist = (if acc then xs.map (·.v) else []) ∧ r.tlist = (if acc then xs.map totalOf else [])
+      ∧ (xs ≠ [] → (xs.map totalOf).sum ≠ 0 →
+            getResult r = .ok (.num ((xs.map (·.v)).sum / (xs.map totalOf).sum))
+            ∧ getMean r = .ok ((xs.map ratioOf).sum / (xs.length : Rat))) := by
+  intro r
+  have hv' : ∀ o ∈ xs, ∃ t, o.t = some t ∧ t ≠ 0 := fun o ho => by
+    have := hv o ho; simpa [validObs, fresh] using this
+  have hr : r = _ := foldUpd_ratio (fresh nm .ratio acc k) rfl xs hv'
+  refine ⟨by rw [hr]; simp [fresh], by rw [hr]; simp [fresh], by rw [hr]; simp [fresh],
+    by rw [hr]; simp [fresh], by rw [hr]; simp [fresh], by rw [hr]; cases acc <;> simp [fresh],
+    by rw [hr]; cases acc <;> simp [fresh], ?_⟩
+  intro hne ht
+  have hn : xs.length ≠ 0 := by simpa using hne
+  rw [hr]
+  simp [getResult, getMean, fresh, hn, ht]
+
+/-- CHOICE results: entry `i` of the array counts the observations that selected choice `i`
+    (numpy index normalisation included), total = count = number of calls. -/
+theorem stats_choice (nm : String) (acc : Bool) (k : Nat) (xs : List Obs)
+    (hv : ∀ o ∈ xs, validObs (fresh nm .choice acc k) o) :
+    let r := foldUpd (fresh nm .choice acc k) xs
+    (∀ i, r.counts[i]? = if i < k then some (hits k xs i) else none)
+      ∧ r.total = (xs.length : Rat) ∧ r.n = xs.length ∧ r.rsum = 0 ∧ r.rsq = 0
+      ∧ r.vlist = (if acc then xs.map (·.v) else []) := by
+  intro r
+  have h1 := foldUpd_choice_counts (fresh nm .choice acc k) rfl xs hv
+  obtain ⟨h2, h3, h4, _, h6, _⟩ := foldUpd_choice_rest (fresh nm .choice acc k) rfl xs hv
+  refine ⟨fun i => ?_, by rw [h2]; simp [fresh], by rw [foldUpd_n]; simp [fresh], by rw [h3]; simp [fresh],
+    by rw [h4]; simp [fresh], by rw [h6]; cases acc <;> simp [fresh]⟩
+  rw [h1 i]
+  by_cases hi : i < k <;> simp [fresh, hi]
+
+/-! ## MISC results -/
+
+/-- **Clause "for misc results the last observation wins"**: for every merge tree whose last
+    chunk is not empty the merged value (and `get_result`) is the last observation of the whole
+    sequence; with accumulation on, the value list is the whole sequence.  (The update count of
+    a merged MISC result is that of the last chunk — MISC merge replaces.) -/
+theorem misc_last_wins (nm : String) (acc : Bool) (k : Nat) (t : MTree (List Obs))
+    (hlast : t.last ≠ []) (hflat : t.flatten ≠ []) (hsuffix : t.flatten.getLast hflat = t.last.getLast hlast) :
+    ∃ r, evalTree (fresh nm .misc acc k) t = .ok r
+      ∧ r.value = (t.flatten.getLast hflat).v
+      ∧ getResult r = .ok (.num (t.flatten.getLast hflat).v)
+      ∧ r.vlist = (if acc then t.flatten.map (·.v) else []) := by
+  refine ⟨_, evalTree_misc nm acc k t, ?_, ?_, rfl⟩
+  · simp only [lastV_eq_getLast 0 t.last hlast, hsuffix]
+  · have hn : t.last.length ≠ 0 := by simpa using hlast
+    simp [getResult, fresh, hn, lastV_eq_getLast 0 t.last hlast, hsuffix]
+
+/-- the last observation of the flattened tree is the last observation of its last chunk
+    (discharges `hsuffix` of `misc_last_wins`) -/
+theorem misc_last_chunk_is_suffix (t : MTree (List Obs)) (hlast : t.last ≠ []) :
+    ∃ h : t.flatten ≠ [], t.flatten.getLast h = t.last.getLast hlast := by
+  induction t with
+  | leaf xs => exact ⟨hlast, rfl⟩
+  | node l r _ ihr =>
+    obtain ⟨h, e⟩ := ihr hlast
+    refine ⟨by simp [MTree.flatten, h], ?_⟩
+    simp only [MTree.flatten, MTree.last]
+    rw [List.getLast_append_of_ne_nil _ h]
+    exact e
+
+/-- **Negative witness (known finding)**: with an *empty* chunk after data the last observation
+    does not win — merging a never-updated MISC result resets the value, and `get_result`
+    answers "Nothing yet", while the single object holds 7. -/
+theorem misc_empty_chunk_resets :
+    evalTree (fresh "x" .misc false 0) (.node (.leaf [⟨7, none⟩]) (.leaf []))
+        = .ok (fresh "x" .misc false 0)
+      ∧ getResult (fresh "x" .misc false 0) = .ok .nothing
+      ∧ getResult (foldUpd (fresh "x" .misc false 0) [⟨7, none⟩]) = .ok (.num 7) := by
+  decide +kernel
+
+/-! ## guards: exactly which calls raise -/
+
+/-- `update` raises iff the observation is not valid for the object's type, and then with the
+    exception kind of the code: RATIO without total → ValueError, total 0 → ZeroDivisionError,
+    CHOICE non-integer → AssertionError, CHOICE index out of range → IndexError.  In every case
+    the update count has already been incremented. -/
+theorem update_raises_iff_invalid (r : Res) (o : Obs) :
+    ((update r o).2 = none ↔ validObs r o)
+      ∧ (r.ty = .ratio → o.t = none → (update r o).2 = some .ValueError)
+      ∧ (r.ty = .ratio → o.t = some 0 → (update r o).2 = some .ZeroDivisionError)
+      ∧ (r.ty = .choice → o.v.den ≠ 1 → (update r o).2 = some .AssertionError)
+      ∧ (r.ty = .choice → o.v.den = 1 → pyIndex r.counts.length o.v.num = none →
+            (update r o).2 = some .IndexError)
+      ∧ (update r o).1.n = r.n + 1 := by
+  refine ⟨⟨fun h => ?_, update_ok⟩, ?_, ?_, ?_, ?_, update_n r o⟩
+  · exact Classical.byContradiction (fun hv => update_err_of_invalid hv h)
+  · intro ht ho; simp [update, ht, ho]
+  · intro ht ho; simp [update, ht, ho]
+  · intro ht hd; simp [update, ht, hd]
+  · intro ht hd hi; simp [update, ht, hd, hi]
+
+/-- `merge` of results with different type or name, or of a non-accumulating result into an
+    accumulating one, raises `AssertionError` and leaves `self` untouched. -/
+theorem merge_rejects_incompatible (a b : Res)
+    (h : a.ty ≠ b.ty ∨ a.name ≠ b.name ∨ (a.acc = true ∧ b.acc = false)) :
+    merge a b = (a, some .AssertionError) := by
+  have hg : mergeGuard a b = some .AssertionError := by
+    unfold mergeGuard
+    by_cases h1 : a.ty = b.ty
+    · by_cases h2 : a.name = b.name
+      · rcases h with h | h | h
+        · exact absurd h1 h
+        · exact absurd h2 h
+        · simp [h1, h2, h.1, h.2]
+      · simp [h1, h2]
+    · simp [h1]
+  simp [merge, hg]
+
+/-! ## SimulationResults: merging whole result sets -/
+
+/-- **Clause "merging whole result sets obeys the same law per name"**: if `self` is not empty,
+    `other` holds every name of `self`, and the last results of `self` are distinct objects,
+    none of them an object of `other`, with matching constructor arguments, then
+    `merge_all_results` raises nothing and replaces, for every name, the last result of `self`
+    by its `Result.merge` with the last result of `other` of that name; no other object, no list
+    and no dictionary changes.  (`A nm` / `B nm` are the addresses of `self[nm][-1]` /
+    `other[nm][-1]`.) -/
+theorem merge_all_pointwise (m : Mach) (s o : Nat) (A B : String → Nat)
+    (hs : s < m.sims.length) (ho : o < m.sims.length) (hne : dictOf m s ≠ [])
+    (hnd : ((dictOf m s).map (·.1)).Nodup) (hnsr : nsr ∉ (dictOf m s).map (·.1))
+    (hnsro : dictGet? (dictOf m o) nsr = none)
+    (hA : ∀ nm ∈ (dictOf m s).map (·.1), lastOf m (dictOf m s) nm = .ok (A nm))
+    (hB : ∀ nm ∈ (dictOf m s).map (·.1), lastOf m (dictOf m o) nm = .ok (B nm))
+    (hinj : ∀ n1 ∈ (dictOf m s).map (·.1), ∀ n2 ∈ (dictOf m s).map (·.1), A n1 = A n2 → n1 = n2)
+    (hsep : ∀ n1 ∈ (dictOf m s).map (·.1), ∀ n2 ∈ (dictOf m s).map (·.1), A n1 ≠ B n2)
+    (hc : ∀ nm ∈ (dictOf m s).map (·.1),
+        ∃ ra rb, m.res[A nm]? = some ra ∧ m.res[B nm]? = some rb ∧ Compat ra rb) :
+    (mergeAll m s o).2 = none
+      ∧ (∀ nm ∈ (dictOf m s).map (·.1), ∀ ra rb, m.res[A nm]? = some ra → m.res[B nm]? = some rb →
+            (mergeAll m s o).1.res[A nm]? = some (mergeCore ra rb))
+      ∧ (∀ a, (∀ nm ∈ (dictOf m s).map (·.1), a ≠ A nm) → (mergeAll m s o).1.res[a]? = m.res[a]?)
+      ∧ (mergeAll m s o).1.lists = m.lists ∧ (mergeAll m s o).1.sims = m.sims := by
+  obtain ⟨p1, p2, p3⟩ := mergeNames_pointwise (dictOf m s) (dictOf m o) A B _ m hnd hnsr hA hB hinj hsep hc
+  have hl := mergeNames_lists (dictOf m s) (dictOf m o) m ((dictOf m s).map (·.1))
+  have hsm := mergeNames_sims (dictOf m s) (dictOf m o) m ((dictOf m s).map (·.1))
+  have hstep : mergeAll m s o = mergeNames (dictOf m s) (dictOf m o) m ((dictOf m s).map (·.1)) := by
+    unfold mergeAll
+    simp only [hs, ho, and_self, if_true, hne, if_false]
+    generalize hmn : mergeNames (dictOf m s) (dictOf m o) m ((dictOf m s).map (·.1)) = q at p1 hsm
+    obtain ⟨m1, e1⟩ := q
+    simp only at p1 hsm
+    subst p1
+    simp only
+    have : dictOf m1 o = dictOf m o := by simp [dictOf, hsm]
+    rw [mergeNsr_absent m1 s o (by rw [this]; exact hnsro)]
+  rw [hstep]
+  exact ⟨p1, p2, p3, hl, hsm⟩
+
+/-- **… for a whole sequence of result sets** (the Monte-Carlo runner's loop
+    `for rep: cur.merge_all_results(rep_results)`): per name, the last result of `self` ends up
+    as the left-to-right `Result.merge` of the operands' last results, whatever the number of
+    operands (`SeqOK` bundles the hypotheses of `merge_all_pointwise` for every operand, all
+    stated on the initial heap). -/
+theorem merge_all_sequence_law (m : Mach) (s : Nat) (os : List Nat) (A : String → Nat)
+    (B : Nat → String → Nat) (h : SeqOK m s os A B) :
+    ∀ nm ∈ (dictOf m s).map (·.1), ∀ ra, m.res[A nm]? = some ra →
+      (runS s m (os.map SOp.mergeAll)).res[A nm]?
+        = some (mergeSeq ra (os.filterMap (fun o => m.res[B o nm]?))) :=
+  mergeAll_sequence s A B os m h
+
+/-- **… hence grouping independence at the set level**: if, for a name, `self` holds the
+    accumulation of `xs₀` and every operand holds the accumulation of its own chunk, then after
+    merging all operands `self` holds the accumulation of the concatenated sequence — the same
+    object as one result set that had seen every repetition (SUM, RATIO, CHOICE). -/
+theorem merge_all_sequence_is_accumulation (m : Mach) (s : Nat) (os : List Nat) (A : String → Nat)
+    (B : Nat → String → Nat) (h : SeqOK m s os A B) (nm : String) (hnm : nm ∈ (dictOf m s).map (·.1))
+    (ty : Ty) (acc : Bool) (k : Nat) (hm : ty ≠ .misc) (xs₀ : List Obs) (chunk : Nat → List Obs)
+    (h0 : m.res[A nm]? = some (foldUpd (fresh nm ty acc k) xs₀))
+    (hch : ∀ o ∈ os, m.res[B o nm]? = some (foldUpd (fresh nm ty acc k) (chunk o))) :
+    (runS s m (os.map SOp.mergeAll)).res[A nm]?
+      = some (foldUpd (fresh nm ty acc k) (xs₀ ++ (os.map chunk).flatten)) := by
+  rw [mergeAll_sequence s A B os m h nm hnm _ h0]
+  have e : os.filterMap (fun o => m.res[B o nm]?) = (os.map chunk).map (foldUpd (fresh nm ty acc k)) := by
+    clear h h0
+    induction os with
+    | nil => rfl
+    | cons o rest ih =>
+      simp only [List.filterMap_cons, hch o (by simp), List.map_cons]
+      rw [ih (fun o' ho' => hch o' (by simp [ho']))]
+  rw [e, mergeSeq_foldUpd nm ty acc k hm]
+
+/-- merging into an **empty** object (repaired source): nothing is raised and `self` then
+    denotes exactly the results of `other` (name by name, in order) … -/
+theorem merge_all_into_empty_copies (m : Mach) (s o : Nat) (hs : s < m.sims.length)
+    (ho : o < m.sims.length) (hempty : dictOf m s = []) (hvo : ∀ e ∈ dictOf m o, ValidEntry m e)
+    (hnd : ((dictOf m o).map (·.1)).Nodup) :
+    (mergeAll m s o).2 = none ∧ view (mergeAll m s o).1 s = view m o :=
+  mergeAll_empty_view m s o hs ho hempty hvo hnd
+
+/-- **Clause "merging never mutates the merged-in operand"**, one call, exceptions included:
+    `merge_all_results` writes only to the last result of each list of `self`; every other
+    Result object, *every* list object and every other SimulationResults object that existed
+    before is unchanged; afterwards the objects `self` can write through are the old ones or
+    objects created by this call (so nothing of `other` has been captured). -/
+theorem merge_all_frame (m : Mach) (s o : Nat) (hwf : WfS m s) :
+    Frame (· ∈ writeSet m s) s m (mergeAll m s o).1
+      ∧ (∀ a ∈ writeSet (mergeAll m s o).1 s, a ∈ writeSet m s ∨ m.res.length ≤ a)
+      ∧ WfS (mergeAll m s o).1 s :=
+  mergeAll_frame m s o hwf
+
+/-- … and **for every later history**: if no Result object of `w` is one of the objects `s`
+    can write through (in particular when `w` shares no object with `s`), then after *any*
+    sequence of `s.merge_all_results(·)` calls (with any operands, `w` included, raising or
+    not) and of updates through `s[name][-1]`, `w` still denotes exactly the same results, and
+    the separation still holds. -/
+theorem merge_never_mutates_operand (m : Mach) (s w : Nat) (ops : List SOp) (h : Watch m s w) :
+    view (runS s m ops) w = view m w ∧ Watch (runS s m ops) s w :=
+  ⟨(watch_run s w ops m h).2, (watch_run s w ops m h).1⟩
+
+/-- `Result.merge` on the heap writes the receiver only. -/
+theorem result_merge_frame (m : Mach) (a b a' : Nat) (h : a' ≠ a) :
+    (mergeR m a b).1.res[a']? = m.res[a']? ∧ (mergeR m a b).1.lists = m.lists
+      ∧ (mergeR m a b).1.sims = m.sims :=
+  ⟨mergeR_res_ne m a b h, mergeR_lists m a b, mergeR_sims m a b⟩
+
+/-- three objects: `a` empty, `b = {x: [Result(3)]}`, `c = {x: [Result(5)]}` -/
+def aliasWitness : Mach :=
+  { res := [(update (fresh "x" .sum false 0) ⟨3, none⟩).1, (update (fresh "x" .sum false 0) ⟨5, none⟩).1],
+    lists := [[0], [1]],
+    sims := [⟨[], ⟨[], []⟩⟩, ⟨[("x", 0)], ⟨[], []⟩⟩, ⟨[("x", 1)], ⟨[], []⟩⟩] }
+
+/-- **Negative witness for the source before the repair** (`self._results[name] = other[name]`):
+    after `a.merge_all_results(b); a.merge_all_results(c)` with `a` initially empty, `b` has
+    changed (it now holds 8 with 2 updates) — the history `[mergeAll b, mergeAll c]` violates the
+    clause; this is the input replayed on the code by the oracle. -/
+theorem merge_into_empty_aliased_before_fix :
+    view (runSOld 0 aliasWitness [.mergeAll 1, .mergeAll 2]) 1 ≠ view aliasWitness 1
+      ∧ view (runS 0 aliasWitness [.mergeAll 1, .mergeAll 2]) 1 = view aliasWitness 1
+      ∧ view (runS 0 aliasWitness [.mergeAll 1, .mergeAll 2]) 0
+          = [("x", [foldUpd (fresh "x" .sum false 0) [⟨3, none⟩, ⟨5, none⟩]])] := by
+  decide +kernel
+
+/-- **The `'num_skipped_reps'` special case** (modelled exactly, documented here): when only
+    `other` carries that bookkeeping result, `merge_all_results` first creates it in `self` with
+    `add_new_result(name, SUMTYPE, 0)` — i.e. already *updated once with 0*, the same convention
+    `SimulationRunner` uses — and then merges: the value (number of skipped repetitions) adds up,
+    the update count is one more than the operand's. -/
+theorem num_skipped_reps_created_with_one_update :
+    let m : Mach :=
+      { res := [foldUpd (fresh "x" .sum false 0) [⟨3, none⟩], foldUpd (fresh "x" .sum false 0) [⟨5, none⟩],
+                foldUpd (fresh nsr .sum false 0) [⟨0, some 0⟩, ⟨1, none⟩, ⟨1, none⟩]],
+        lists := [[0], [1], [2]],
+        sims := [⟨[("x", 0)], ⟨[], []⟩⟩, ⟨[("x", 1), (nsr, 2)], ⟨[], []⟩⟩] }
+    (mergeAll m 0 1).2 = none
+      ∧ view (mergeAll m 0 1).1 0
+          = [("x", [foldUpd (fresh "x" .sum false 0) [⟨3, none⟩, ⟨5, none⟩]]),
+             (nsr, [foldUpd (fresh nsr .sum false 0) [⟨0, some 0⟩, ⟨0, some 0⟩, ⟨1, none⟩, ⟨1, none⟩]])]
+      ∧ view (mergeAll m 0 1).1 1 = view m 1 := by
+  decide +kernel
+
+/-! ## append -/
+
+/-- `append_all_results` never changes a Result object (it shares them). -/
+theorem append_all_never_touches_results (m : Mach) (s o : Nat) : (appendAll m s o).1.res = m.res :=
+  appendAll_res m s o
+
+/-- appending results of one name and type to the list `self` already has under that name
+    extends *that list object*, in order, and raises nothing (the inner loop of
+    `append_all_results`). -/
+theorem append_extends_list (s : Nat) (m : Mach) (as : List Nat) (nm : String) (ls a0 : Nat)
+    (tl : List Nat) (r0 : Res) (hd : dictGet? (dictOf m s) nm = some ls) (hl : listAt m ls = a0 :: tl)
+    (hlt : ls < m.lists.length) (hr0 : m.res[a0]? = some r0)
+    (has : ∀ a ∈ as, ∃ r, m.res[a]? = some r ∧ r.name = nm ∧ r.ty = r0.ty) :
+    (appendElems s m as).2 = none ∧ (appendElems s m as).1.sims = m.sims
+      ∧ (appendElems s m as).1.lists = m.lists.set ls (a0 :: tl ++ as) :=
+  appendElems_concat s m as nm ls a0 tl r0 hd hl hlt hr0 has
+
+/-- … and appending results of a name `self` does not have yet creates one new list object
+    holding exactly these results, in order, under a new last key; no other object changes. -/
+theorem append_new_name_creates_list (s : Nat) (m : Mach) (a : Nat) (rest : List Nat) (nm : String)
+    (r : Res) (hs : s < m.sims.length) (hd : dictGet? (dictOf m s) nm = none) (hr : m.res[a]? = some r)
+    (hn : r.name = nm) (has : ∀ a' ∈ rest, ∃ r', m.res[a']? = some r' ∧ r'.name = nm ∧ r'.ty = r.ty) :
+    (appendElems s m (a :: rest)).2 = none
+      ∧ (appendElems s m (a :: rest)).1.res = m.res
+      ∧ (appendElems s m (a :: rest)).1.lists = m.lists ++ [a :: rest]
+      ∧ dictOf (appendElems s m (a :: rest)).1 s = dictOf m s ++ [(nm, m.lists.length)]
+      ∧ ∀ j, j ≠ s → (appendElems s m (a :: rest)).1.sims[j]? = m.sims[j]? :=
+  appendElems_new_name s m a rest nm r hs hd hr hn has
+
+/-- Full statement for `append_all_results` (per name the lists are concatenated, new names are
+    appended in the operand's order).  **Partial**: proved are `append_all_never_touches_results`,
+    `append_extends_list` and `append_new_name_creates_list` (what happens for one name of the
+    operand, both cases); the composition over all names of the operand (the outer loop) is
+    covered by the exact correspondence scripts and the `append_all_results` oracle only.
+    `append_all_results` is not part of the property's statement (it is listed as a mechanism);
+    by design it *shares* the Result objects. -/
+def AppendAllConcatStatement : Prop :=
+  ∀ (m : Mach) (s o : Nat), s ≠ o → s < m.sims.length → o < m.sims.length →
+    (∀ e ∈ dictOf m s, ValidEntry m e) → (∀ e ∈ dictOf m o, ValidEntry m e) →
+    ((dictOf m o).map (·.1)).Nodup → (∀ l ∈ reachLists m s, l ∉ reachLists m o) →
+    (∀ e ∈ dictOf m o, ∀ a ∈ listAt m e.2, ∃ r, m.res[a]? = some r ∧ r.name = e.1) →
+    (∀ e ∈ view m s, ∀ e' ∈ view m o, e.1 = e'.1 → ∀ r ∈ e.2, ∀ r' ∈ e'.2, r.ty = r'.ty) →
+    (appendAll m s o).2 = none ∧
+      view (appendAll m s o).1 s =
+        (view m s).map (fun e => (e.1, e.2 ++ ((view m o).lookup e.1).getD []))
+          ++ (view m o).filter (fun e => ((view m s).lookup e.1).isNone && !e.2.isEmpty)
+
+/-! ## combining result sets over parameter grids -/
+
+/-- `np.union1d` on the values of an unpacked parameter: exactly the values of either operand,
+    strictly increasing (hence without duplicates). -/
+theorem union_grid_spec (a b : List Int) :
+    (∀ x, x ∈ union1d a b ↔ x ∈ a ∨ x ∈ b) ∧ (union1d a b).Pairwise (· < ·) :=
+  ⟨mem_union1d a b, sorted_union1d a b⟩
+
+/-- `combine_simulation_parameters`: raises `RuntimeError` unless parameter names, unpacked names
+    and fixed values agree; otherwise fixed parameters are kept and every unpacked parameter gets
+    the union of the two value lists. -/
+theorem combine_params_spec (p1 p2 : Params) :
+    (p1.fixed = p2.fixed ∧ p1.unp.map (·.1) = p2.unp.map (·.1) →
+        combineParams p1 p2 = .ok ⟨p1.fixed, List.zipWith (fun a b => (a.1, union1d a.2 b.2)) p1.unp p2.unp⟩)
+      ∧ (¬ (p1.fixed = p2.fixed ∧ p1.unp.map (·.1) = p2.unp.map (·.1)) →
+        combineParams p1 p2 = .error .RuntimeError) := by
+  constructor
+  · rintro ⟨h1, h2⟩
+    simp [combineParams, h1, h2]
+  · intro h
+    unfold combineParams
+    by_cases hn : p1.fixed.map (·.1) ≠ p2.fixed.map (·.1) ∨ p1.unp.map (·.1) ≠ p2.unp.map (·.1)
+    · simp [hn]
+    · have hn' : p1.fixed.map (·.1) = p2.fixed.map (·.1) ∧ p1.unp.map (·.1) = p2.unp.map (·.1) := by
+        constructor
+        · exact Classical.byContradiction (fun x => hn (Or.inl x))
+        · exact Classical.byContradiction (fun x => hn (Or.inr x))
+      have hf : p1.fixed ≠ p2.fixed := fun e => h ⟨e, hn'.2⟩
+      simp [hn'.1, hn'.2, hf]
+
+/-- `get_pack_indexes` of a full combination: the index it returns is the position of the
+    combination in the enumeration order of `get_unpacked_params_list`; it raises (`ValueError`)
+    exactly when the combination is not in the operand's grid. -/
+theorem pack_index_spec (vals : List (List Int)) (c : List Int) (hlen : c.length = vals.length) :
+    (∀ i, packIndex vals c = .ok i → (product vals)[i]? = some c)
+      ∧ (∀ e, packIndex vals c = .error e → e = .ValueError ∧ c ∉ product vals) :=
+  ⟨fun i h => packIndex_ok vals c i hlen h, fun e h => packIndex_error vals c e hlen h⟩
+
+/-- **Clause "combining result sets … obeys the same law per parameter combination"**
+    (structure): a successful `combine_simulation_results` returns a *new* object whose
+    parameters are the combined parameters, with the result names of the first operand in
+    order, and whose `k`-th result of every name is the cell of the `k`-th combination of the
+    union grid: an empty object merged with the first operand's result of that combination if it
+    has one, then with the second's (`cellOf`). -/
+theorem combine_results_spec (m m' : Mach) (s1 s2 : Nat) (x1 x2 : Sim)
+    (h1 : m.sims[s1]? = some x1) (h2 : m.sims[s2]? = some x2) (h : combine m s1 s2 = (m', none)) :
+    ∃ p, combineParams x1.params x2.params = .ok p
+      ∧ m'.sims.length = m.sims.length + 1
+      ∧ (m'.sims[m.sims.length]?).map (·.params) = some p
+      ∧ (view m' m.sims.length).map (·.1) = x1.dict.map (·.1)
+      ∧ ∀ row ∈ view m' m.sims.length, ∃ l1 l2 a0 tl r0,
+          dictGet? x1.dict row.1 = some l1 ∧ dictGet? x2.dict row.1 = some l2
+          ∧ listAt m l1 = a0 :: tl ∧ m.res[a0]? = some r0
+          ∧ row.2.length = (product (p.unp.map (·.2))).length
+          ∧ ∀ (k : Nat) (c : List Int), (product (p.unp.map (·.2)))[k]? = some c →
+              ∃ r : Res, row.2[k]? = some r
+                ∧ cellOf m (fresh row.1 r0.ty false r0.counts.length) (listAt m l1) (listAt m l2)
+                    (x1.params.unp.map (·.2)) (x2.params.unp.map (·.2)) c = .ok r := by
+  obtain ⟨p, rows, hp, hrows, hlen, hpar, hview⟩ := combine_view m m' s1 s2 x1 x2 h1 h2 h
+  obtain ⟨hn, hrow⟩ := combineRows_spec m _ _ _ _ _ _ rows hrows
+  refine ⟨p, hp, hlen, hpar, by rw [hview]; exact hn, ?_⟩
+  intro row hr
+  rw [hview] at hr
+  obtain ⟨l1, l2, a0, tl, r0, g1, g2, g3, g4, g5⟩ := hrow row hr
+  obtain ⟨c1, c2⟩ := combineName_spec m _ _ _ _ _ _ row.2 g5
+  exact ⟨l1, l2, a0, tl, r0, g1, g2, g3, g4, c1, c2⟩
+
+/-- **… (content of a cell)**: for a combination present in both operands, in one, or in none,
+    the cell is the merge of the operands' results of that combination into an empty object
+    (no exception when the results have the operand's name/type/array length). -/
+theorem combine_cell_law (m : Mach) (f : Res) (l1 l2 : List Nat) (v1 v2 : List (List Int))
+    (c : List Int) (hf : f.acc = false) :
+    (∀ i1 a1 r1 i2 a2 r2, packIndex v1 c = .ok i1 → l1[i1]? = some a1 → m.res[a1]? = some r1 →
+        packIndex v2 c = .ok i2 → l2[i2]? = some a2 → m.res[a2]? = some r2 →
+        CompatL f r1 → CompatL f r2 →
+        cellOf m f l1 l2 v1 v2 c = .ok (mergeCore (mergeCore f r1) r2))
+      ∧ (∀ i1 a1 r1, packIndex v1 c = .ok i1 → l1[i1]? = some a1 → m.res[a1]? = some r1 →
+          packIndex v2 c = .error .ValueError → CompatL f r1 →
+          cellOf m f l1 l2 v1 v2 c = .ok (mergeCore f r1))
+      ∧ (∀ i2 a2 r2, packIndex v1 c = .error .ValueError →
+          packIndex v2 c = .ok i2 → l2[i2]? = some a2 → m.res[a2]? = some r2 → CompatL f r2 →
+          cellOf m f l1 l2 v1 v2 c = .ok (mergeCore f r2))
+      ∧ (packIndex v1 c = .error .ValueError → packIndex v2 c = .error .ValueError →
+          cellOf m f l1 l2 v1 v2 c = .ok f) :=
+  ⟨fun i1 a1 r1 i2 a2 r2 h1 hl1 hr1 h2 hl2 hr2 hc1 hc2 =>
+      cell_both m f r1 r2 l1 l2 v1 v2 c i1 a1 i2 a2 hf h1 hl1 hr1 h2 hl2 hr2 hc1 hc2,
+   fun i1 a1 r1 h1 hl1 hr1 h2 hc1 => cell_left m f r1 l1 l2 v1 v2 c i1 a1 h1 hl1 hr1 h2 hc1,
+   fun i2 a2 r2 h1 h2 hl2 hr2 hc2 => cell_right m f r2 l1 l2 v1 v2 c i2 a2 h1 h2 hl2 hr2 hc2,
+   fun h1 h2 => cell_none m f l1 l2 v1 v2 c h1 h2⟩
+
+/-- **… (the law)**: when the operands' results of a combination are the accumulations of the
+    observation sequences `xs₁`, `xs₂` (any accumulation flags), the cell equals the object that
+    accumulates `xs₁ ++ xs₂` into one new result — SUM, RATIO, CHOICE; one-operand case alike. -/
+theorem combine_cell_is_accumulation (nm : String) (ty : Ty) (acc₁ acc₂ : Bool) (k : Nat)
+    (hm : ty ≠ .misc) (xs₁ xs₂ : List Obs) :
+    mergeCore (mergeCore (fresh nm ty false k) (foldUpd (fresh nm ty acc₁ k) xs₁))
+          (foldUpd (fresh nm ty acc₂ k) xs₂)
+        = foldUpd (fresh nm ty false k) (xs₁ ++ xs₂)
+      ∧ mergeCore (fresh nm ty false k) (foldUpd (fresh nm ty acc₁ k) xs₁)
+        = foldUpd (fresh nm ty false k) xs₁ :=
+  ⟨cell_fold_both nm ty acc₁ acc₂ k hm xs₁ xs₂, cell_fold_one nm ty acc₁ k hm xs₁⟩
+
+/-- **Clause "never mutates the operands" for `combine_simulation_results`** (raising or not):
+    every Result object, list object and SimulationResults object that existed before the call
+    is unchanged — the call only allocates. -/
+theorem combine_never_mutates_operands (m : Mach) (s1 s2 : Nat) :
+    (∀ a, a < m.res.length → (combine m s1 s2).1.res[a]? = m.res[a]?)
+      ∧ (∀ l, l < m.lists.length → (combine m s1 s2).1.lists[l]? = m.lists[l]?)
+      ∧ (∀ j, j < m.sims.length → (combine m s1 s2).1.sims[j]? = m.sims[j]?) :=
+  combine_frame m s1 s2
+
+/-! ## non-vacuity: the hypotheses above are satisfiable by non-trivial values -/
+
+/-- a RATIO sequence with accumulation, split in three chunks (one empty), two groupings -/
+example :
+    let f := fresh "ber" .ratio true 0
+    let xs : List Obs := [⟨3, some 4⟩, ⟨1, some 2⟩, ⟨-5, some 8⟩]
+    (∀ o ∈ xs, validObs f o)
+      ∧ evalTree f (.node (.leaf [⟨3, some 4⟩]) (.node (.leaf []) (.leaf [⟨1, some 2⟩, ⟨-5, some 8⟩])))
+          = .ok (foldUpd f xs)
+      ∧ (foldUpd f xs).value = -1 ∧ (foldUpd f xs).total = 14 ∧ (foldUpd f xs).n = 3 := by
+  decide +kernel
+
+/-- a CHOICE sequence (with a negative index) is valid -/
+example : ∀ o ∈ ([⟨1, none⟩, ⟨-1, none⟩, ⟨3, none⟩] : List Obs), validObs (fresh "c" .choice false 4) o := by
+  decide +kernel
+
+/-- `Watch` holds on a concrete machine with two populated, unrelated objects; `Compat` too -/
+example : Watch aliasWitness 1 2 ∧ Watch aliasWitness 0 1 :=
+  ⟨⟨by decide, by unfold WfS; decide +kernel, by unfold WfS; decide +kernel, by decide +kernel⟩,
+   ⟨by decide, by unfold WfS; decide +kernel, by unfold WfS; decide +kernel, by decide +kernel⟩⟩
+
+/-- the hypotheses of `merge_all_pointwise` hold for `b.merge_all_results(c)` on that machine -/
+example :
+    let m := aliasWitness
+    dictOf m 1 ≠ [] ∧ ((dictOf m 1).map (·.1)).Nodup ∧ nsr ∉ (dictOf m 1).map (·.1)
+      ∧ lastOf m (dictOf m 1) "x" = .ok 0 ∧ lastOf m (dictOf m 2) "x" = .ok 1
+      ∧ (mergeAll m 1 2).2 = none
+      ∧ view (mergeAll m 1 2).1 1 = [("x", [foldUpd (fresh "x" .sum false 0) [⟨3, none⟩, ⟨5, none⟩]])] := by
+  decide +kernel
+
+/-- `combine_simulation_results` succeeds on two result sets over the grids `p ∈ {1,2}` and
+    `p ∈ {2,3}` and yields, for `p = 1,2,3`, the accumulations of `[1]`, `[2,3]`, `[4]` -/
+example :
+    let r := fun (v : Rat) => foldUpd (fresh "x" .sum true 0) [⟨v, none⟩]
+    let m : Mach :=
+      { res := [r 1, r 2, r 3, r 4], lists := [[0, 1], [2, 3]],
+        sims := [⟨[("x", 0)], ⟨[("f", 3)], [("p", [1, 2])]⟩⟩, ⟨[("x", 1)], ⟨[("f", 3)], [("p", [2, 3])]⟩⟩] }
+    (combine m 0 1).2 = none
+      ∧ view (combine m 0 1).1 2
+          = [("x", [foldUpd (fresh "x" .sum false 0) [⟨1, none⟩],
+                    foldUpd (fresh "x" .sum false 0) [⟨2, none⟩, ⟨3, none⟩],
+                    foldUpd (fresh "x" .sum false 0) [⟨4, none⟩]])]
+      ∧ (((combine m 0 1).1.sims[2]?).map (·.params) = some ⟨[("f", 3)], [("p", [1, 2, 3])]⟩)
+      ∧ view (combine m 0 1).1 0 = view m 0 ∧ view (combine m 0 1).1 1 = view m 1 := by
+  decide +kernel
+
+/-- `SeqOK` is satisfiable: `b.merge_all_results(c)` on the three-object machine -/
+example : SeqOK aliasWitness 1 [2] (fun _ => 0) (fun _ _ => 1) :=
+  { hs := by decide, hne := by decide +kernel, hnd := by decide +kernel, hnsr := by decide +kernel,
+    hA := by decide +kernel, hinj := fun _ _ _ _ _ => by simp_all [aliasWitness, dictOf],
+    ho := by decide +kernel, hB := by decide +kernel, hsep := by decide +kernel,
+    hc := fun nm _ => ⟨_, rfl, fun o ho => by
+      simp at ho; subst ho
+      exact ⟨_, rfl, ⟨rfl, rfl, rfl, rfl⟩⟩⟩ }
 
 end PyPhysim.C06
